@@ -2,24 +2,28 @@
 from mc import core, spaces
 from mc.oracles import cfg
 
-WORDS = {L: list(spaces.words(['a', 'b'], L)) for L in (2, 3, 4, 5)}
+WORDS = {L: list(spaces.words(['a', 'b'], L)) for L in (2, 3, 4, 5, 6)}
 
 
 def tup(x):
     return tuple(tup(y) for y in x) if isinstance(x, list) else x
 
 
-def check_accepts(acc, spec, L, morph=False, prev=None):
+def check_accepts(acc, spec, L, morph=False, prev=None, epsilon='ε'):
     from gambatools.cfg_algorithms import cfg_accepts_word
-    rp = {'fn': 'mc.props.c07:one_accepts', 'mode': 'plain', 'params': {'spec': spec, 'L': L, 'prev': prev, 'morph': morph}}
+    rp = {'fn': 'mc.props.c07:one_accepts', 'mode': 'plain', 'params': {'spec': spec, 'L': L, 'prev': prev, 'morph': morph, 'epsilon': epsilon}}
     inst = {'grammar': cfg.show(spec), 'start': spec[4]}
     if prev is not None:
         inst['queried_before_in_the_same_process'] = cfg.show(prev) + ' (start {})'.format(prev[4])
-    G = cfg.morph(spec) if morph else cfg.to_lib(spec)
+    G = cfg.morph(spec) if morph else cfg.to_lib(spec, epsilon)
+    words_L = list(spaces.words(list(spec[2]), L)) if list(spec[2]) != ['a', 'b'] else WORDS[L]
     before = cfg.from_lib(G)
+    if any(len(rhs) >= 5 for _, rhs in spec[3]):
+        L = max(L, 5)          # a rule with five or more symbols shows only on words of that length
+        words_L = list(spaces.words(list(spec[2]), L)) if list(spec[2]) != ['a', 'b'] else WORDS[L]
     lang, _ = cfg.language(spec, L)
     acc.states += 1
-    for w in WORDS[L]:
+    for w in words_L:
         ok, got = core.lib_call(acc, 'cfg_accepts_word', dict(inst, word=w), cfg_accepts_word, G, w, repro=rp)
         acc.transitions += 1
         if not ok:
@@ -29,7 +33,7 @@ def check_accepts(acc, spec, L, morph=False, prev=None):
         exp = w in lang
         if got is not exp:
             acc.viol('cfg_accepts_word', 'verdict differs from derivability from the start variable', dict(inst, word=w), repro=rp, observed=got, expected=exp)
-    if 0 < len(lang) < len(WORDS[L]):
+    if 0 < len(lang) < len(words_L):
         acc.nontrivial += 1
         if len(spec[3]) >= 3:
             acc.sample({'grammar': cfg.show(spec), 'language_up_to_%d' % L: sorted(lang, key=lambda x: (len(x), x))[:8]})
@@ -40,18 +44,20 @@ def check_accepts(acc, spec, L, morph=False, prev=None):
         acc.viol('cfg_accepts_word', 'argument grammar was modified', inst, repro=rp, observed=str(e))
 
 
-def one_accepts(acc, spec, L, prev=None, morph=False):
+def one_accepts(acc, spec, L, prev=None, morph=False, epsilon='ε'):
     if morph:
         cfg._LIVE.clear()
     if prev is not None:
         check_accepts(core.Acc(), tup(prev), L, morph)
-    check_accepts(acc, tup(spec), L, morph, tup(prev) if prev is not None else None)
+    check_accepts(acc, tup(spec), L, morph, tup(prev) if prev is not None else None, epsilon)
 
 
-def check_cyk(acc, spec, L):
+def check_cyk(acc, spec, L, multi=False):
+    if multi:
+        spec = cfg.rename(spec, cfg.MULTI)
     from gambatools.cfg_algorithms import cfg_cyk_matrix, cfg_accepts_word
     rp = {'fn': 'mc.props.c07:one_cyk', 'mode': 'plain', 'params': {'spec': spec, 'L': L}}
-    inst = {'grammar': cfg.show(spec)}
+    inst = {'grammar': cfg.show(spec), 'variables': list(spec[1])}
     G = cfg.to_lib(spec)
     acc.states += 1
     nontriv = False
@@ -97,6 +103,10 @@ def t_accepts(acc, space, L, shard, nshard, stride=1, offset=0):
             if (idx // stride) % 8 == 1:
                 check_accepts(acc, spec, L, morph=True)
                 check_accepts(acc, alt, L, morph=True, prev=spec)
+            if (idx // stride) % 8 == 2:
+                check_accepts(acc, cfg.rename(spec, cfg.MULTI), L)                       # multi-character variable names X, XX, XS
+            if (idx // stride) % 8 == 3:
+                check_accepts(acc, cfg.rename(spec, None, cfg.EPS_TERMINAL), L, epsilon='e')    # the character ε as a terminal
 
 
 def t_big(acc, L):
@@ -108,6 +118,8 @@ def t_cyk(acc, L, shard, nshard, maxrules=5):
     for idx, spec in cfg.cnf3(maxrules):
         if idx % nshard == shard:
             check_cyk(acc, spec, L)
+            if idx % 4 == 1:
+                check_cyk(acc, spec, min(L, 3), multi=True)
 
 
 def plan(tier, seed):
